@@ -301,3 +301,133 @@ Proof.
   split; [exact C1|]. split; [|exact C2].
   intros x Hx. eapply covl_incl; [|exact Hx]. eapply contig_loop_incl; eauto.
 Qed.
+
+(* ---------------------------------------------------------------- nothing is invented in the queue *)
+Lemma co_loop_sound : forall S i w hi s e,
+  zlen S < HIS -> 0 <= w -> 0 <= s -> s <= e -> e <= hi -> hi <= HI 0 -> e <= zlen S ->
+  forall left right bytes rel tags m,
+  w <= m -> rok S i w m left -> qok S i m hi right ->
+  (bytes = [] \/ (bytes = sub S s (e - s) /\ e <= m)) ->
+  let r := co_loop fixedv (sq i s) (sq i e) left right bytes rel tags in
+  forall x, covl S i (co_left r) x \/ covl S i (co_right r) x -> covl S i left x \/ covl S i right x.
+Proof.
+  intros S i w hi s e HS Hw0 Hs0 Hse He Hhi HeS.
+  induction left as [|cur rest IH]; intros right bytes rel tags m Hwm Hl Hr Hb r.
+  - subst r. cbn [co_loop co_left co_right]. intros x Hx; exact Hx.
+  - cbn [rok] in Hl. destruct Hl as (cs & Hcs & Hce & Hcur & Hrest).
+    pose proof (qok_bounds _ _ _ _ _ Hr) as Hmhi.
+    assert (Hcs' : 0 <= cs) by lia.
+    assert (Hce' : cs + plen cur <= 0 + (HALFW - 1)) by (unfold HI in *; lia).
+    assert (He' : e <= 0 + (HALFW - 1)) by (unfold HI in *; lia).
+    assert (Hbz : zlen bytes = e - s \/ bytes = []).
+    { destruct Hb as [Hb|[Hb _]]; [right; assumption|left]. subst bytes. apply zlen_sub; lia. }
+    assert (Hbs : bytes = sub S s (e - s) \/ bytes = []) by (destruct Hb as [Hb|[Hb _]]; auto).
+    assert (Hex := co_cases_exhaustive S i s e cs cur Hcur).
+    pose proof Hcur as Hcur'. destruct Hcur' as (Hc0 & Hcl & HcS & Hcq & Hcb).
+    assert (Hone : forall x, covl S i [cur] x <-> cs <= x < cs + plen cur) by (intros; apply covl_one; assumption).
+    destruct Hex as [C5|[C1|[C3|[C2|[C4|[C6|C0]]]]]].
+    + subst r. rewrite (co_case5 S i 0 s e cs cur) by (try assumption; lia).
+      intros x Hx. apply (IH (cur :: right) bytes rel (5 :: tags) cs) in Hx; try assumption; try lia.
+      * rewrite (covl_cons S i cur rest). rewrite (covl_cons S i cur right) in Hx. tauto.
+      * cbn [qok]. exists cs. split; [lia|]. split; [lia|]. split; [assumption|]. eapply qok_weaken; eauto; lia.
+      * destruct Hb as [Hb|[Hb Hm]]; [left; assumption|right; split; [assumption|lia]].
+    + subst r. rewrite (co_case1 S i 0 s e cs cur) by (try assumption; lia).
+      cbn [co_left co_right]. intros x Hx; exact Hx.
+    + subst r. rewrite (co_case3 S i 0 s e cs cur) by (try assumption; lia).
+      intros x Hx. apply (IH right bytes (rel + 1) (3 :: tags) m) in Hx; try assumption; try lia.
+      * rewrite (covl_cons S i cur rest). tauto.
+      * eapply rok_weaken; eauto; lia.
+    + subst r. rewrite (co_case2 S i 0 s e cs cur) by (try assumption; lia).
+      cbn [co_left co_right]. intros x Hx. rewrite covl_cons in Hx. rewrite (covl_cons S i cur rest).
+      destruct Hx as [[Hx|Hx]|Hx]; [|tauto|tauto].
+      assert (Hp2 : pg S i cs (set_bytes cur (ztake (s - cs) (pbytes cur)))) by (apply case2_page; try assumption; lia).
+      apply (covl_one S i _ cs x HS Hp2) in Hx.
+      unfold plen, set_bytes in Hx. cbn [pbytes] in Hx. rewrite zlen_ztake in Hx by (unfold plen in *; lia).
+      left. left. apply Hone. lia.
+    + subst r. rewrite (co_case4 S i 0 s e cs cur) by (try assumption; lia).
+      assert (H4 := case4_page S i e cs cur).
+      destruct H4 as (Hp4 & Hl4); try assumption; try lia.
+      intros x Hx.
+      apply (IH (mkPage (zskip (e - cs) (pbytes cur)) (sq i e) (pseen cur) (pend cur) :: right) bytes rel (4 :: tags) e) in Hx;
+        try assumption; try lia.
+      * rewrite (covl_cons S i cur rest). rewrite covl_cons in Hx.
+        destruct Hx as [Hx|[Hx|Hx]]; [tauto| |tauto].
+        apply (covl_one S i _ e x HS Hp4) in Hx. rewrite Hl4 in Hx. left. left. apply Hone. lia.
+      * eapply rok_weaken; eauto; lia.
+      * cbn [qok]. exists e. rewrite Hl4. split; [lia|]. split; [lia|]. split; [assumption|]. eapply qok_weaken; eauto; lia.
+      * destruct Hb as [Hb|[Hb Hm]]; [left; assumption|right; split; [assumption|lia]].
+    + subst r. rewrite (co_case6 S i 0 s e cs cur) by (try assumption; lia).
+      rewrite (case6_same S i s e cs cur) by (try assumption; lia).
+      rewrite set_bytes_same.
+      intros x Hx. apply (IH (cur :: right) [] rel (6 :: tags) cs) in Hx; try assumption; try lia.
+      * rewrite (covl_cons S i cur rest). rewrite (covl_cons S i cur right) in Hx. tauto.
+      * cbn [qok]. exists cs. split; [lia|]. split; [lia|]. split; [assumption|]. eapply qok_weaken; eauto; lia.
+      * left; reflexivity.
+    + subst r. rewrite (co_case0 S i 0 s e cs cur) by (try assumption; lia).
+      intros x Hx. apply (IH (cur :: right) bytes rel tags cs) in Hx; try assumption; try lia.
+      * rewrite (covl_cons S i cur rest). rewrite (covl_cons S i cur right) in Hx. tauto.
+      * cbn [qok]. exists cs. split; [lia|]. split; [lia|]. split; [assumption|]. eapply qok_weaken; eauto; lia.
+      * destruct Hb as [Hb|[Hb Hm]]; [left; assumption|right; split; [assumption|lia]].
+Qed.
+
+Lemma sok_cov_inv : forall S i l a e x, zlen S < HIS -> sok S i a e l -> 0 <= a -> covl S i l x -> a <= x < e.
+Proof.
+  intros S i. induction l as [|p t IH]; intros a e x HS H Ha Hx; cbn [sok] in H.
+  - destruct (covl_nil S i x Hx).
+  - destruct H as ((H1 & H2 & H3 & H4) & H). pose proof (sok_range _ _ _ _ _ H). pose proof (plen_nonneg p).
+    rewrite covl_cons in Hx. destruct Hx as [Hx|Hx].
+    + destruct Hx as (p' & o' & [Hin|[]] & Hp' & Hx). subst p'.
+      assert (o' = a).
+      { destruct Hp' as (G1 & G2 & G3 & G4 & _). apply (sq_inj_window i o' a); [unfold HIS, HALFW in *; lia|congruence]. }
+      subst o'. lia.
+    + pose proof (IH _ _ _ HS H ltac:(lia) Hx). lia.
+Qed.
+
+(* checkOverlap, both directions, and the swallowed case *)
+Lemma check_overlap_sound : forall S i w q s n ts fl doq,
+  zlen S < HIS -> qok S i w HIS q -> 0 <= w -> 0 <= s -> 0 <= n -> s + n <= zlen S ->
+  let r := check_overlap fullv q (sub S s n) (sq i s) ts fl doq in
+  (forall x, covl S i (c2_queue r) x -> covl S i q x \/ (doq = true /\ s <= x < s + n)) /\
+  (c2_bytes r = [] -> forall x, s <= x < s + n -> covl S i (c2_queue r) x).
+Proof.
+  intros S i w q s n ts fl doq HS Hq Hw Hs Hn HnS r. subst r. rewrite check_overlap_full. unfold check_overlap.
+  rewrite zlen_sub by lia. rewrite sadd_sq.
+  pose proof (qok_bounds _ _ _ _ _ Hq) as Hb.
+  assert (Hgen := co_loop_gen S i 0 w HIS s (s + n) ltac:(lia) ltac:(lia) ltac:(lia) ltac:(unfold HIS in *; lia)
+                    HIS_HI Hs HnS (rev q) [] (sub S s n) 0 [] HIS).
+  assert (Hsnd := co_loop_sound S i w HIS s (s + n) HS Hw Hs ltac:(lia) ltac:(unfold HIS in *; lia) HIS_HI HnS
+                    (rev q) [] (sub S s n) 0 [] HIS).
+  assert (Hcov := co_loop_cover S i w HIS s (s + n) HS Hw Hs ltac:(lia) ltac:(unfold HIS in *; lia) HIS_HI HnS
+                    (rev q) [] (sub S s n) 0 [] HIS).
+  replace (s + n - s) with n in Hgen, Hsnd, Hcov by lia.
+  destruct Hgen as (Hpk & m1 & m2 & _ & _ & _ & _ & Hby).
+  { lia. } { apply unzip_ok; assumption. } { cbn [qok]; lia. } { right; split; [reflexivity|unfold HIS in *; lia]. }
+  specialize (Hsnd ltac:(lia) ltac:(apply unzip_ok; assumption) ltac:(cbn [qok]; lia)
+                   ltac:(right; split; [reflexivity|unfold HIS in *; lia])).
+  destruct Hcov as (_ & C2).
+  { lia. } { apply unzip_ok; assumption. } { cbn [qok]; lia. } { right; split; [reflexivity|unfold HIS in *; lia]. }
+  rewrite Hpk.
+  set (r := co_loop fixedv (sq i s) (sq i (s + n)) (rev q) [] (sub S s n) 0 []) in *.
+  cbv zeta in Hsnd.
+  assert (Hold : forall y, covl S i (rev (co_left r)) y \/ covl S i (co_right r) y -> covl S i q y).
+  { intros y Hy. destruct (Hsnd y) as [H|H].
+    - destruct Hy as [Hy|Hy]; [left; apply covl_rev; exact Hy|right; exact Hy].
+    - apply covl_rev. exact H.
+    - destruct (covl_nil S i y H). }
+  destruct ((0 <? zlen (co_bytes r)) && doq) eqn:E; cbn [c2_queue c2_bytes].
+  - assert (Hbytes : co_bytes r = sub S s n).
+    { destruct Hby as [Hby|(Hby & _)]; [|exact Hby]. rewrite Hby in E. cbn in E. discriminate. }
+    split.
+    + intros x Hx. rewrite Hbytes in Hx. rewrite !covl_app in Hx.
+      destruct Hx as [Hx|[Hx|Hx]]; [left; apply Hold; tauto| |left; apply Hold; tauto].
+      right. split; [destruct doq; [reflexivity|rewrite andb_false_r in E; discriminate]|].
+      apply (sok_cov_inv S i _ s (s + n) x HS) in Hx; [exact Hx| |lia].
+      apply to_pages_sok; lia.
+    + intros Hnil. rewrite Hnil in E. cbn in E. discriminate.
+  - split.
+    + intros x Hx. rewrite covl_app in Hx. left. apply Hold. exact Hx.
+    + intros Hnil x Hx. rewrite covl_app. right.
+      destruct (Z.eq_dec n 0); [lia|].
+      apply C2; [|exact Hnil|exact Hx].
+      intros Hn0. assert (Hz : zlen (sub S s n) = n) by (apply zlen_sub; lia). rewrite Hn0 in Hz. cbn in Hz. lia.
+Qed.
